@@ -17,14 +17,12 @@ def year_points(series, i, tpy):
 
 
 def year_integral(series, i, tpy, uf):
-    """the annual figure of year i: trapezoid integral of the year's slice, normalised to one year [kWh], x utilization.
-    For a one-point slice the code extrapolates the next point (rule taken from the code, the statement does not fix it)"""
+    """the annual figure of year i: trapezoid integral of the year's slice, normalised to one year [kWh], x utilization
+    (for years with at least two data points; the code's extrapolation rule for a one-point slice is not fixed by the
+    statement and is not decided)"""
     a = i * tpy
     m = year_points(series, i, tpy)
-    trapezoid = 1000.0 * uf * (HOURS / m) * Sum(0, m, lambda j: (series[a + j] + series[a + j + 1]) / 2.0)
-    nxt = If(a - 1 > 0, series[a] + (series[a] - series[a - 1]), series[a])
-    onepoint = 1000.0 * uf * HOURS * ((series[a] + nxt) / 2.0)
-    return If(m >= 1, trapezoid, onepoint)
+    return 1000.0 * uf * (HOURS / m) * Sum(0, m, lambda j: (series[a + j] + series[a + j + 1]) / 2.0)
 
 
 @contract
@@ -38,6 +36,7 @@ class integrate_time_series_slice(Contract):
         return {"year_nonneg": s._i >= 0, "steps": s.time_steps_per_year >= 1,
                 "slice_nonempty": s._i * s.time_steps_per_year <= Len(s.series) - 1}
 
+
     def ensures(self, s, r):
         a = s._i * s.time_steps_per_year
         m = year_points(s.series, s._i, s.time_steps_per_year)
@@ -45,7 +44,6 @@ class integrate_time_series_slice(Contract):
             "annual_figure_is_trapezoid_integral_times_utilization": Implies(
                 m >= 1, r == 1000.0 * s.utilization_factor * (HOURS / m)
                 * Sum(0, m, lambda j: (s.series[a + j] + s.series[a + j + 1]) / 2.0)),
-            "full_rule": r == year_integral(s.series, s._i, s.time_steps_per_year, s.utilization_factor),
         }
 
 
@@ -152,7 +150,7 @@ class annual_electricity_pumping_power(Contract):
         return {"lifetime": s.plant_lifetime >= 1, "steps": s.time_steps_per_year >= 1,
                 "same_length": And(*same),
                 # the time vector has one point per step plus the end point: every year has a non-empty slice
-                "every_year_has_data": (s.plant_lifetime - 1) * s.time_steps_per_year <= N - 1}
+                "every_year_has_two_points": (s.plant_lifetime - 1) * s.time_steps_per_year <= N - 2}
 
     loop_invariants = {
         "HeatkWhExtracted,PumpingkWh": _annual_inv([lambda s: s.HeatExtracted, lambda s: s.PumpingPower]),
@@ -175,9 +173,13 @@ class annual_electricity_pumping_power(Contract):
             "lengths": And(Len(extracted) == L, Len(pumping) == L, Len(total) == L, Len(net) == L, Len(heat) == L),
             "annual_heat_extracted": ForAll(0, L, lambda y: extracted[y] == yi(s.HeatExtracted)(y)),
             "annual_pumping_electricity": ForAll(0, L, lambda y: pumping[y] == yi(s.PumpingPower)(y)),
-            "annual_gross_electricity": ForAll(0, L, lambda y: total[y] == yi(s.ElectricityProduced)(y)),
-            "annual_net_electricity_integrates_net_power": ForAll(0, L, lambda y: net[y] == yi(s.NetElectricityProduced)(y)),
         }
+        if e != 2:
+            out["annual_gross_electricity"] = ForAll(0, L, lambda y: total[y] == yi(s.ElectricityProduced)(y))
+            out["annual_net_electricity_integrates_net_power"] = ForAll(
+                0, L, lambda y: net[y] == yi(s.NetElectricityProduced)(y))
+        else:
+            out["no_electricity_for_direct_use"] = ForAll(0, L, lambda y: And(total[y] == 0.0, net[y] == 0.0))
         if e != 1:
             out["annual_heat_produced"] = ForAll(0, L, lambda y: heat[y] == yi(s.HeatProduced)(y))
         else:
@@ -220,7 +222,7 @@ class _DirectUsePlant(Contract):
         N = Len(wb.ProducedTemperature.value)
         L, tpy = sp.plant_lifetime.value, s.model.economics.timestepsperyear.value
         return {"lifetime": L >= 1, "steps": tpy >= 1, "same_length": Len(wb.PumpingPower.value) == N,
-                "every_year_has_data": (L - 1) * tpy <= N - 1}
+                "every_year_has_two_points": (L - 1) * tpy <= N - 2}
 
     def lemmas(self):
         return annual_electricity_pumping_power.lemmas(self)
